@@ -92,15 +92,53 @@ theorem KStep.read_stable {e e' : Entry} {lab : KLabel} (ts : TS) (h : KStep e l
     exact gcKeep_reads _ _ _ hi.desc hg
   | wipe => exact absurd hg id
 
+/-! ### GC keeps everything above the safe point -/
+
+theorem gcDropped_sp (ws : List Write) (sp : TS) (kn : Bool) : ∀ c ∈ gcDropped ws sp kn, c ≤ sp := by
+  induction ws generalizing kn with
+  | nil => intro c hc; cases hc
+  | cons w rest ih =>
+    intro c hc
+    simp only [gcDropped] at hc
+    split at hc
+    · exact ih kn c hc
+    · rename_i hle
+      have hle' : w.commitTS ≤ sp := Nat.le_of_not_lt hle
+      split at hc
+      · rw [List.mem_append] at hc
+        cases hc with
+        | inl h =>
+          split at h
+          · simp at h; omega
+          · cases h
+        | inr h => exact ih false c h
+      · cases hc with
+        | head => exact hle'
+        | tail _ h => exact ih kn c h
+
+/-- a GC step removes no record above its safe point -/
+theorem KStep.gc_keeps_above {e e' : Entry} {sp : TS} (h : KStep e (.gc sp) e') (w : Write) (hw : w ∈ e.writes)
+    (habove : sp < w.commitTS) : w ∈ e'.writes := by
+  cases h with
+  | gc k sp =>
+    rw [gcWrites_eq, foldl_entryAct_delWrites, foldl_delWrite]
+    simp only [applyDels, List.mem_filter, Bool.not_eq_eq_eq_not, Bool.not_true]
+    refine ⟨hw, ?_⟩
+    cases hc : (gcDropped e.writes sp true).contains w.commitTS with
+    | false => rfl
+    | true =>
+      have := gcDropped_sp e.writes sp true w.commitTS (by simpa using hc)
+      omega
+
 /-! ### durability of records -/
 
-/-- the steps that cannot remove or replace the record `w`: everything except GC, destroy-range, and a write at
-    `w`'s own version (excluded by distinct timestamps) -/
+/-- the steps that cannot remove or replace the record `w`: everything except GC at a safe point at or above it,
+    destroy-range, and a write at `w`'s own version (excluded by distinct timestamps) -/
 def KLabel.keepsRecord (w : Write) : KLabel → Prop
   | .commit _ C => w.commitTS ≠ C
   | .rollback T => w.commitTS ≠ T
   | .marker T => w.commitTS ≠ T
-  | .gc _ => False
+  | .gc sp => sp < w.commitTS
   | .wipe => False
   | _ => True
 
@@ -116,7 +154,7 @@ theorem KStep.record_stays {e e' : Entry} {lab : KLabel} (w : Write) (h : KStep 
   | marker k T hnl hf => rw [marker_writes]; exact mem_putWrite_of_ne hw hg
   | locks k T acts ha hf => rw [(KStep.locks k T acts ha hf).locks_writes]; exact hw
   | unlock acts ha => rw [(KStep.unlock acts ha).unlock_writes]; exact hw
-  | gc k sp => exact absurd hg id
+  | gc k sp => exact (KStep.gc k sp).gc_keeps_above w hw hg
   | wipe => exact absurd hg id
 
 /-! ### finality: a transaction with a record on the key takes no further step there -/
@@ -248,43 +286,7 @@ theorem runAll_record_stays (w : Write) (k : Bytes) (s : Store) (cs : List Cmd) 
     (fun _ h => h) (fun _ _ _ h1 h2 h => h2 (h1 h))
     (fun _ _ _ _ hst hgd => hst.record_stays w hgd) s cs hs hok hg hw
 
-/-! ### GC keeps everything above the safe point; a finished key is not locked by its transaction -/
-
-theorem gcDropped_sp (ws : List Write) (sp : TS) (kn : Bool) : ∀ c ∈ gcDropped ws sp kn, c ≤ sp := by
-  induction ws generalizing kn with
-  | nil => intro c hc; cases hc
-  | cons w rest ih =>
-    intro c hc
-    simp only [gcDropped] at hc
-    split at hc
-    · exact ih kn c hc
-    · rename_i hle
-      have hle' : w.commitTS ≤ sp := Nat.le_of_not_lt hle
-      split at hc
-      · rw [List.mem_append] at hc
-        cases hc with
-        | inl h =>
-          split at h
-          · simp at h; omega
-          · cases h
-        | inr h => exact ih false c h
-      · cases hc with
-        | head => exact hle'
-        | tail _ h => exact ih kn c h
-
-/-- a GC step removes no record above its safe point -/
-theorem KStep.gc_keeps_above {e e' : Entry} {sp : TS} (h : KStep e (.gc sp) e') (w : Write) (hw : w ∈ e.writes)
-    (habove : sp < w.commitTS) : w ∈ e'.writes := by
-  cases h with
-  | gc k sp =>
-    rw [gcWrites_eq, foldl_entryAct_delWrites, foldl_delWrite]
-    simp only [applyDels, List.mem_filter, Bool.not_eq_eq_eq_not, Bool.not_true]
-    refine ⟨hw, ?_⟩
-    cases hc : (gcDropped e.writes sp true).contains w.commitTS with
-    | false => rfl
-    | true =>
-      have := gcDropped_sp e.writes sp true w.commitTS (by simpa using hc)
-      omega
+/-! ### a finished key is not locked by its transaction -/
 
 /-- C06 at the store: in a state satisfying the invariant, a key on which the transaction already has its commit
     record or rollback marker is not locked by that transaction -/
